@@ -87,7 +87,7 @@ fn single(idx: u64, rng: &mut Rng, mon: &mut Mon) {
             // classes whose centres stay inside the documented +-2pi range (with the sentinel the
             // centres play the role of the previous vector)
             // (wrap-around ranges written with from > pi have their centre beyond 2pi, up to 3pi)
-            let cls = *rng.pick(&[1, 1, 5, 6, 2, 0, 3, 4]);
+            let cls = *rng.pick(&[1, 1, 5, 6, 2, 0, 3, 4, 9, 9]);
             let (f, t) = limit_pair(rng, cls, q[j]);
             from[j] = f;
             to[j] = t;
